@@ -27,6 +27,18 @@ Theorem parse_code_whole : forall is_letter is_udigit s e, parse_code is_letter 
   exists ts rest, lex is_letter is_udigit s = Some ts /\ map ParseYield.shape ts = map ParseYield.shape (print e ++ rest) /\ only_blank_eos rest = true.
 Proof. exact ParseYield.parse_code_whole. Qed.
 Print Assumptions parse_code_whole.
+(* an unterminated block comment: the lexer has no token for it and falls back to the operators '/' and '*';
+   a '/' immediately followed by '*' therefore never reaches the parser's result ("a /* x" is not "a / *x") *)
+Theorem open_comment_rejected : forall is_letter is_udigit s ts, lex is_letter is_udigit s = Some ts ->
+  open_comment ts = true -> parse_code is_letter is_udigit s = None.
+Proof. exact ParseYield.open_comment_rejected. Qed.
+Print Assumptions open_comment_rejected.
+Example open_comment_example :
+  let letter := fun r => (N.leb 97 r && N.leb r 122)%bool in
+  parse_code letter (fun _ => false) [97;32;47;42;32;120] = None /\            (* a /* x *)
+  parse_code letter (fun _ => false) [97;32;47;32;42;120] <> None /\           (* a / *x *)
+  parse_code letter (fun _ => false) [97;32;47;42;32;120;32;42;47] <> None.    (* a /* x */ *)
+Proof. vm_compute. repeat split; discriminate. Qed.
 
 (* directive values: accepted values are  quote (literal | ${ code })* quote , every ${ has its },
    every code block was accepted by the expression parser; an open block / string / quote is rejected *)
